@@ -200,10 +200,12 @@ class Case:
                                                    " ".join("%d %s" % af for af in obs), retf))
         # the real call
         calls = []
+        raw = []
         undo = []
         for obj, name in self.patch:
-            def rec(*a, _n=name, **k):
+            def rec(*a, _n=name, _o=obj, **k):
                 calls.append(_n)
+                raw.append((_o, _n, list(a) + list(k.values())))
                 return None
             undo.append((obj, name, getattr(obj, name)))
             setattr(obj, name, rec)
@@ -224,6 +226,9 @@ class Case:
             except AttributeError:
                 setattr(obj, name, old)
         after = ser.snapshot() if res[0] == "OK" else None
+        if getattr(self, "want_full", False):
+            self.calls_full = ["|".join([n_, ser.tok_frozen(o_).replace(" ", "_")] +
+                                        [ser.tok_frozen(a_).replace(" ", "_") for a_ in as_]) for o_, n_, as_ in raw]
         return lines, res, obs, after, calls
 
     bound = True
@@ -310,6 +315,16 @@ def run_cases(cases):
             mine = cl if getattr(c, "all_calls", False) else [x for x in cl if x in {p[1] for p in c.patch}]
             if mine != calls:
                 diffs.append({"channel": ch, "what": "extern calls", "model": mine, "impl": calls, "input": lines[-8:]})
+                continue
+            full = getattr(c, "calls_full", None)
+            if full is not None:
+                ca = next((b for b in block if b.startswith("CARGS ")), "CARGS 0").split()[2:]
+                if not getattr(c, "all_calls", False):
+                    ca = [x for x in ca if x.split("|")[0] in {p[1] for p in c.patch}]
+                if ca != full:
+                    j = next((i for i, (x, y) in enumerate(zip(ca, full)) if x != y), min(len(ca), len(full)))
+                    diffs.append({"channel": ch, "what": "extern calls with receivers and arguments", "position": j,
+                                  "model": ca[j:j + 2], "impl": full[j:j + 2], "input": lines[-8:]})
     return compared, diffs, dist
 
 
@@ -595,6 +610,8 @@ def run(ctx, groups, n_each):
     cases = []
     if "runner" in groups:
         import py_runner_cases  # noqa: F401 - registers GENS["runner"]
+    if "simdispatch" in groups:
+        import py_sim_cases  # noqa: F401 - registers GENS["simdispatch"]
     for g in groups:
         rng = ctx.rng("pycode", g)
         cases += list(GENS[g](rng, n_each))
